@@ -22,7 +22,7 @@ def main():
         d = scratch("apasetup")
         try:
             p = subprocess.run(["apalache-mc", "typecheck", "--out-dir=" + d, os.path.basename(m)], cwd=SPEC, capture_output=True,
-                               text=True, timeout=600)
+                               text=True, timeout=600, env=dict(os.environ, TMPDIR=d))
             if p.returncode != 0:
                 bad += 1
                 print("APALACHE TYPECHECK FAILED", m)
